@@ -45,9 +45,9 @@ def gen_put(rng, nargs=None, allow_dots=True, allow_missing=True, allow_mount=Tr
         args.insert(rng.randint(0, len(args)), {'arg': bad, 'kind': 'badutf8', 'entry': bad, 'expect': 'fail-untouched'})
     # names already taken in the trash directories the victims can go to: complete entries, payloads without info
     # (file, directory, dangling link), infos without payload
-    if rng.random() < 0.35:
+    if rng.random() < 0.35 or any(len(os.fsencode(v['name'])) > 245 for v in vs):
         for v in vs:
-            if rng.random() < 0.6:
+            if rng.random() < 0.6 and len(os.fsencode(v['name'])) <= 245:
                 continue
             tds = [lay.home_trash]
             for m in lay.all_vols:
@@ -57,7 +57,12 @@ def gen_put(rng, nargs=None, allow_dots=True, allow_missing=True, allow_mount=Tr
                     if lay.top[m][1] == 'dir':
                         tds.append(lay.top2(m))
             for td in tds:
-                for nm in [v['name']] + ([v['name'] + '_1'] if rng.random() < 0.5 else []):
+                names_taken = [v['name']] + ([v['name'] + '_1'] if rng.random() < 0.5 else [])
+                if len(os.fsencode(v['name'])) + 10 > 255:
+                    # the shortened names trash-put will try: <name cut by len(suffix + '.trashinfo')> + suffix
+                    cut = lambda sfx: v['name'][:len(v['name']) - len(sfx) - 10] + sfx        # Python slicing on characters, like the code
+                    names_taken = [cut('_1')] + ([cut('_2')] if rng.random() < 0.5 else [])
+                for nm in names_taken:
                     k = rng.choice(['pair', 'pair_l', 'orphan_f', 'orphan_d', 'orphan_l', 'info_only'])
                     if k == 'pair':
                         nodes += scen.entry(td, nm, '/old/' + nm, '2001-01-01T00:00:00', rng.choice(['f', 'd']))
